@@ -12,7 +12,7 @@ SUITE=$(/verif/tools/run_suite.sh "$D/wt" | head -3 | tr '\n' ' ')
 ( cd "$M" && DASK_SCHEDULER=synchronous PYTHONPATH="/repo/src" MPLBACKEND=Agg timeout 300 /venv/bin/python demo.py >/dev/null 2>&1 ); DEMO_CLEAN=$?
 echo "[$(basename $(dirname $M))/$(basename $M)] $SUITE | demo clean=$DEMO_CLEAN mutant=$DEMO_MUT"
 for P in ${PROPS//,/ }; do
-  OUT=$(cd /verif && VERIF_REPO_SRC="$D/wt/src" VERIF_JOBS="${VERIF_JOBS:-8}" ./check "$P" --tier "${TIER:-quick}" 2>&1 | tail -4)
+  OUT=$(cd /verif && VERIF_EVIDENCE_DIR=/verif/.work/evidence-scratch VERIF_REPO_SRC="$D/wt/src" VERIF_JOBS="${VERIF_JOBS:-8}" ./check "$P" --tier "${TIER:-quick}" 2>&1 | tail -4)
   echo "   [$P] $(echo "$OUT" | grep -E 'VIOLATION|HELD|INCONCLUSIVE' | head -1 | cut -c1-120) :: $(echo "$OUT" | grep -E 'violations by mechanism' | head -1 | cut -c1-220)"
 done
 git -C /repo worktree remove --force "$D/wt"; rm -rf "$D"
